@@ -255,7 +255,7 @@ def type_entries(td):
 
 ALLOW_NON_EXHAUSTIVE = True   # C19 builds its values in another crate than the definitions: switched off there
 FOREIGN_ATTRS = ["/// documented", "#[allow(dead_code)]", "#[doc = \"d\"]", "#[allow(unused, clippy::all)]",
-                 "/** block doc */", "#[cfg(all())]"]
+                 "/** block doc */", "#[cfg(all())]", "#[rustfmt::skip]"]
 
 
 def render(td, rng=None, canonical=False, spell=None, vis="pub ", strip=False, extras=True,
